@@ -25,12 +25,24 @@ theorem response_history_independent (app : App) (hist : List HReq) (r : HReq) :
   rw [wsgi_slots_irrelevant app (hist.foldl (serve₁ app) AppState.init).slots AppState.init.slots]
   rw [withProbe_slots_irrelevant (hist.foldl (serve₁ app) AppState.init).slots AppState.init.slots]
 
-/-- nothing a request sets or sends is ever written to the shared `HTTPError` objects of
-`errors_map`: after any history their status, headers, cookies and body are the initial ones -/
-theorem shared_errors_unchanged (app : App) (hist : List HReq) :
-    (hist.foldl (serve₁ app) AppState.init).shared.map SharedErr.core =
-      sharedInit.map SharedErr.core :=
-  foldl_core app hist AppState.init
+/-- … and from any starting state: in particular for an application configured with its own
+`errors_map` (`AppState.initWith`), long-lived error objects with any text included -/
+theorem response_history_independent_from (app : App) (st0 : AppState) (hist : List HReq) (r : HReq) :
+    (serve app (hist.foldl (serve₁ app) st0) r).2 = (serve app st0 r).2 := by
+  have hcore := foldl_core app hist st0
+  unfold serve
+  simp only
+  rw [resolve_core _ _ r hcore]
+  rw [wsgi_slots_irrelevant app (hist.foldl (serve₁ app) st0).slots st0.slots]
+  rw [withProbe_slots_irrelevant (hist.foldl (serve₁ app) st0).slots st0.slots]
+
+/-- the entries of `errors_map` are templates: what `_raise` raises — and what error handlers are
+handed, may annotate, what gets a traceback — is a per-request copy, so after any history, from
+any starting configuration, the shared objects are exactly what they were (status, headers,
+cookies, body and traceback), whatever handlers and error handlers did -/
+theorem shared_errors_unchanged (app : App) (st0 : AppState) (hist : List HReq) :
+    (hist.foldl (serve₁ app) st0).shared = st0.shared :=
+  foldl_shared app hist st0
 
 /-- `class_level_state_accounted`: the complete list of class-level and module-level mutable
 containers (dict / list / set valued) of the package, as extracted from the live modules — the
@@ -70,40 +82,55 @@ theorem class_level_state_accounted :
 /-- the number of shared error objects, from the extracted `errors_map` -/
 theorem shared_count : sharedInit.length = 3 := by decide
 
-/-- `retained_bounded`: after serving any history — in particular N failing requests of any
-kind — at most 4 requests have per-request objects (environ, input stream) reachable from the
-application: the one the reused request object points at and one per shared error object of
-`errors_map` (`_raise` resets the traceback before raising; `_handle` drops it again when the
-response reaches its `except HTTPResponse` clause).  The bound is a numeral, independent of the
-history.  Hypothesis: raised responses reach that clause (no after-hook fails), or the
-application raises no module-level response object of its own — see `singleton_residue`. -/
-theorem retained_bounded (app : App) (hist : List HReq)
+/-- the templates of `errors_map` never reference a request -/
+theorem initWith_tb (m : List (String × Nat × Str × Str)) : (AppState.initWith m).shared.flatMap (·.tb) = [] := by
+  unfold AppState.initWith
+  induction m with
+  | nil => rfl
+  | cons x xs ih => simpa [List.flatMap_cons] using ih
+
+theorem init_tb : AppState.init.shared.flatMap (·.tb) = [] := by decide
+
+/-- the retention bound from any starting state whose shared templates and application
+singletons reference no request -/
+theorem retained_bounded_from (app : App) (st0 : AppState) (hist : List HReq)
+    (h0 : st0.shared.flatMap (·.tb) = []) (h1 : AppTbEmpty st0.appTb)
     (hc : reachesExcept app = true ∨ ∀ hr ∈ hist, hr.singleton = none) :
-    (retained (hist.foldl (serve₁ app) AppState.init)).length ≤ 4 := by
-  have htb := foldl_tb app hist AppState.init (by
-    intro e he
-    unfold AppState.init sharedInit at he
-    simp only [List.mem_map] at he
-    obtain ⟨x, _, rfl⟩ := he
-    exact Nat.zero_le 1)
-  have hflat := flatMap_tb_length _ htb.1
-  rw [htb.2] at hflat
-  have hlen : AppState.init.shared.length = 3 := shared_count
-  have happ := flatMap_empty _ (foldl_appTb app hist AppState.init (fun p hp => by cases hp) hc)
+    (retained (hist.foldl (serve₁ app) st0)).length ≤ 1 := by
+  have happ := flatMap_empty _ (foldl_appTb app hist st0 h1 hc)
   unfold retained
   refine Nat.le_trans (dedup_length_le _) ?_
-  rw [happ]
-  simp only [List.length_append, List.length_nil, Nat.add_zero]
-  cases (hist.foldl (serve₁ app) AppState.init).slots.req with
-  | none => simp only [List.length_nil]; omega
-  | some q => simp only [List.length_cons, List.length_nil]; omega
+  rw [happ, foldl_shared, h0]
+  simp only [List.append_nil]
+  cases (hist.foldl (serve₁ app) st0).slots.req with
+  | none => simp
+  | some q => simp
+
+/-- `retained_bounded`: after serving any history — in particular N failing requests of any
+kind — at most ONE request has per-request objects (environ, input stream) reachable from the
+application: the one the reused request object points at.  The mapped errors of `errors_map`
+are raised as per-request copies and never hold a traceback; `_handle` drops the traceback of a
+raised response that reaches its `except HTTPResponse` clause.  The bound is a numeral,
+independent of the history.  Hypothesis: raised responses reach that clause (no after-hook
+fails), or the application raises no module-level response object of its own — see
+`singleton_residue`. -/
+theorem retained_bounded (app : App) (hist : List HReq)
+    (hc : reachesExcept app = true ∨ ∀ hr ∈ hist, hr.singleton = none) :
+    (retained (hist.foldl (serve₁ app) AppState.init)).length ≤ 1 :=
+  retained_bounded_from app AppState.init hist init_tb (fun p hp => by cases hp) hc
+
+/-- … and for an application with its own `errors_map` -/
+theorem retained_bounded_with (app : App) (m : List (String × Nat × Str × Str)) (hist : List HReq)
+    (hc : reachesExcept app = true ∨ ∀ hr ∈ hist, hr.singleton = none) :
+    (retained (hist.foldl (serve₁ app) (AppState.initWith m))).length ≤ 1 :=
+  retained_bounded_from app (AppState.initWith m) hist (initWith_tb m) (fun p hp => by cases hp) hc
 
 /-- `retained_bounded` in the form "there is a constant" -/
 theorem retained_bounded_exists :
     ∃ K : Nat, ∀ (app : App) (hist : List HReq),
       (reachesExcept app = true ∨ ∀ hr ∈ hist, hr.singleton = none) →
       (retained (hist.foldl (serve₁ app) AppState.init)).length ≤ K :=
-  ⟨4, retained_bounded⟩
+  ⟨1, retained_bounded⟩
 
 /-- the one environ the request object keeps is the last request's -/
 theorem request_slot_is_last (app : App) (st : AppState) (r : HReq) :
@@ -168,15 +195,15 @@ example : retained ([{ bigBodyReq 1 with bodyErr := some "RequestError" },
     { bigBodyReq 2 with bodyErr := some "BodyParsingError" }, bigBodyReq 3,
     { bigBodyReq 7 with bodyErr := none }].foldl (serve₁ exApp) AppState.init) = [7] := by decide +kernel
 
-/-- an application whose after-hook always raises: the mapped error is replaced while it
-propagates and keeps its last traceback -/
+/-- an application whose after-hook always raises -/
 def failingAfterApp : App := { before := [], after := [{ effs := [], res := .raises }], errHandlers := [] }
 
-/-- … then the bound 4 is attained: one failing request per mapped class, then another request -/
+/-- the mapped errors are copies: even when the raised copy is replaced on its way (failing
+after-hook) the templates keep nothing -/
 example : reachesExcept failingAfterApp = false ∧
-    (retained ([{ bigBodyReq 1 with bodyErr := some "RequestError" },
+    retained ([{ bigBodyReq 1 with bodyErr := some "RequestError" },
       { bigBodyReq 2 with bodyErr := some "BodyParsingError" }, bigBodyReq 3,
-      { bigBodyReq 7 with bodyErr := none }].foldl (serve₁ failingAfterApp) AppState.init)).length = 4 := by
+      { bigBodyReq 7 with bodyErr := none }].foldl (serve₁ failingAfterApp) AppState.init) = [7] := by
   decide +kernel
 
 /-- a handler that raises the application's module-level `HTTPError` number 0 -/
